@@ -271,7 +271,18 @@ pub fn rand_limbs(ctx: &mut Ctx, len: usize) -> Vec<u64> {
 
 pub fn val_of_len(ctx: &mut Ctx, kid: u8, len: usize) -> Val {
     let limbs = rand_limbs(ctx, len);
-    let spare = if ctx.rng.chance(1, 2) { 1 + ctx.rng.below(3) as usize } else { 0 };
+    // spare storage words of the dynamic / heap-auto values: none (half), a few, and -- one in eight of the others -- more
+    // than any small internal buffer (8, 9, 16, 17, 63..65 words, or a few hundred), as `with_capacity(1024)` or a
+    // truncated long vector leave behind
+    let spare = if ctx.rng.chance(1, 2) {
+        match ctx.rng.below(16) {
+            0..=13 => 1 + ctx.rng.below(3) as usize,
+            14 => 4 + ctx.rng.below(14) as usize,
+            _ => ctx.rng.pick(&[8usize, 9, 16, 17, 31, 63, 64, 65, 130, 300]),
+        }
+    } else {
+        0
+    };
     let dynmode = ctx.rng.chance(1, 3);
     make_val(kid, len, &limbs, spare, dynmode)
 }
@@ -1614,6 +1625,23 @@ fn gen_c13(ctx: &mut Ctx) {
             }
             if len == 32769 || len == 40057 {
                 sink_cases(ctx, &a, false);
+            }
+        }
+    }
+    // short vectors in large allocations (with_capacity / truncate leave them): the number of storage words exceeds
+    // what the length needs by more than any stack buffer
+    for k in [KD, KA] {
+        for spare in [7usize, 8, 9, 15, 16, 17, 64, 127, 128, 129, 513] {
+            for len in [0usize, 1, 20, 63, 64, 65, 129, 200, 512, 1000] {
+                let l = rand_limbs(ctx, len);
+                let a = make_val(k, len, &l, spare, true);
+                for e in [0u128, 1] {
+                    ctx.emit(Case::new(22).arg(e).val(a.clone()));
+                    ctx.emit(Case::new(23).arg(e).arg(ctx.rng.below(4) as u128).val(a.clone()));
+                }
+                if spare % 8 == 1 {
+                    sink_cases(ctx, &a, false);
+                }
             }
         }
     }
